@@ -297,7 +297,9 @@ fn rev_key(x: u64, width: usize) -> u64 {
 
 fn wavelet(ctx: &mut Ctx) {
     let mut rng = Rng::new(ctx.seed ^ 0xC9_2);
-    let mut vectors: Vec<Vec<u64>> = vec![Vec::new(), vec![0], vec![1], vec![0, 1], vec![1, 0], vec![3, 3, 3], vec![0, 0, 0], vec![5, 0, 5, 2, 7, 7, 1]];
+    let mut vectors: Vec<Vec<u64>> = vec![Vec::new(), vec![0], vec![1], vec![0, 1], vec![1, 0], vec![3, 3, 3], vec![0, 0, 0], vec![5, 0, 5, 2, 7, 7, 1],
+        // power-of-two lengths with values missing from the alphabet (their "first occurrence" is the sentinel len)
+        vec![0, 1, 3, 1, 1, 3, 0, 3], vec![2, 2, 0, 2], vec![7, 7], (0..16).map(|i| [0u64, 4, 6][i % 3]).collect(), (0..64).map(|i| (i as u64 % 5) * 3).collect(), (0..128).map(|i| 1 + (i as u64 % 2) * 8).collect()];
     for _ in 0..ctx.size(60, 800) {
         let len = 1 + rng.below(if cfg!(miri) { 24 } else { 200 });
         let width = 1 + rng.below(if cfg!(miri) { 4 } else { 10 });
@@ -412,7 +414,7 @@ fn constructors(ctx: &mut Ctx) {
     }
     ctx.sample(|| format!("ctor: IntVector::{{new,with_len,with_capacity}} and IntVectorWriter::{{new,with_buf_len}} x widths {:?}", widths));
     // Sparse builder: more set bits than the universe has positions.
-    for &(u, ones) in &[(0usize, 0usize), (0, 1), (1, 1), (1, 2), (5, 5), (5, 6), (100, usize::MAX), (usize::MAX, 3), (10, 11)] {
+    for &(u, ones) in &[(0usize, 0usize), (0, 1), (1, 1), (1, 2), (5, 5), (5, 6), (100, usize::MAX), (usize::MAX, 3), (10, 11), (3, usize::MAX - 1), (1, usize::MAX), (1usize << 40, usize::MAX), (1usize << 62, (1usize << 62) + 1), (7, 1usize << 63)] {
         if !ctx.begin_case() { continue; }
         // Allocation grows with `ones`; keep the accepted cases small.
         if ones > 1000 && ones <= u { continue; }
